@@ -7,6 +7,21 @@ ALL = ["C%02d" % i for i in range(1, 21)]
 
 # id -> dict(text, note, technique, design_ref)
 CHECKS = {
+ "C01": dict(
+  text="Round-trip monitor over the shared box workload: 121 k inputs / 0.77 M round trips (quick), 3 M inputs (thorough) — every corpus seed (testdata files, every box cut out, ~400 hand-built instances covering all 134 registered types and their version/flag shapes, fuzz seeds) and size-consistent mutants (bit flips, field values, largesize N1, trak order N2, surplus N3, nesting) through the four decode paths and both encoders; input and output are compared on the independent walker's trees, differences must be explained by the committed don't-care list (c01_dontcare.json: reserved/pre_defined/matrix/pad masks with ISO field names, N1-N3) and the output must re-decode to an equal structure and be a fixed point; the codec configuration records are round-tripped directly.",
+  note="Trusts the walker's container table and the hand-pruned mask list (dead entries are reported in evidence); inputs rejected by a path are outside that path's domain; seven lossy fields are recorded known findings.",
+  technique="runtime monitor: differential byte comparison of decode->encode against a committed don't-care mask list, plus fixed-point and structural re-decode oracles",
+  design_ref="DESIGN.md §3 C01, §13"),
+ "C02": dict(
+  text="Invariant monitor over the same workload plus 10 k API-built structures (gen/frag: init, fragments, segments with 0-3 sidx, files), 0.5 M structures (quick) / 13 M (thorough): Size before, Encode, Size after, 1-3 Info calls, EncodeSW at capacity +64 and exact capacity, second Encode; lengths, idempotence, tiling of the bytes by the independent walker, and for every node of the library tree size field = Size() = own encoding = its sub-range of the parent.",
+  note="Encoders returning an error are outside the property; lazy-mdat and segment-mode files get the clauses that apply to what Encode writes.",
+  technique="runtime monitor: structural invariants checked on every node of encoded trees against an independent box walker",
+  design_ref="DESIGN.md §3 C02, §13"),
+ "C03": dict(
+  text="Differential monitor over the same workload, 1.26 M pairs (quick) / 32 M (thorough): Encode vs EncodeSW on fresh instances (identical bytes or both fail); every input canonical for one decode path must be accepted by the other path at the same level with a structurally equal tree (nothing ignored: StartPos, segments/fragments, senc state), also through 1-byte and short-chunk readers; the key sets of the two dispatch tables must coincide (hook mp4.VerifRegisteredBoxTypes).",
+  note="Only inputs canonical for a path are in the domain of the cross-path clause (default decode options); the esds descriptor look-beyond is a recorded known finding.",
+  technique="runtime monitor: differential execution of the two decoders and the two encoders with a reflective structural comparator",
+  design_ref="DESIGN.md §3 C03, §13"),
  "C04": dict(
   text="Resource monitor over isolated worker processes: ~32 k (quick) / 2 M (thorough) structure-aware hostile mutants of the whole testdata corpus (plus crafted cross-box layouts) are pushed through every decode path/flag/mode, Info at all levels and both encoders; recovered panics, worker deaths, per-operation CPU (RUSAGE) and bytes allocated (runtime/metrics) are the observations. Held = none of them on the executions listed in evidence.",
   note="Bounds cpu <= 2 s + 20 us/byte and alloc <= 8 MiB + 1 KiB/byte are deliberately loose constants (max observed ratio is in evidence); inputs <= 256 KiB; quadratic cost in nesting depth is a recorded known finding.",
